@@ -33,6 +33,24 @@ CLAIMED = {
     note='Trusted: TLC, frozen tables. Construction failure (panic/None) is an event the spec rejects. T=1 (one case T=2).',
     technique='TLC trace validation of intermediate symbols against the TLA+ pre-code relations; TLC rank computation (MC_Rank)',
     design='4/C06'),
+ 'C19': dict(
+    category='model_checking',
+    text='Accept(F,T,Z,Al) is specified over multi-limb naturals (TLC integers are 32-bit) and checked by TLC against an '
+         'independent formulation (F <= 56403*Z*T). TLC enumerates the boundary lattice - it computes where each limit lies, '
+         'incl. k*2^32*T where 32-bit quotients wrap - and every case is replayed on the real constructor (verdict + accessor '
+         'echo); random tuples are validated in the other direction by a TLC trace spec.',
+    note='Trusted: TLC, BigNat limb arithmetic (cross-checked by the AcceptEquivProduct invariant); panics are caught and are data.',
+    technique='TLC-enumerated boundary cases replayed on the constructor (spec->impl) + TLC trace validation of random calls (impl->spec)',
+    design='4/C19'),
+ 'C14': dict(
+    category='model_checking',
+    text='RFC 6330 4.3 is specified on multi-limb naturals; TLC enumerates (F, P\', WS) on the decision boundaries it computes '
+         '(budgets at K\'*Al*ceil(T/(Al*n)) and one below, quotients beyond 32 bits, F filling Z blocks +-1 byte), checks '
+         'T-maximal / Z-minimal / N-minimal / constructible / monotone-in-WS on every case, and each case is replayed on the '
+         'real derivation through three routes incl. a full encode/decode round trip; random inputs are trace-validated by TLC.',
+    note='Trusted: TLC, BigNat; Al=SS=8 for P\'>=64 else 1 is the crate\'s choice; outside "a valid configuration exists" any outcome is accepted.',
+    technique='TLC-enumerated boundary cases with spec invariants, replayed on the derivation (spec->impl) + TLC trace validation (impl->spec)',
+    design='4/C14'),
 }
 
 NOT_YET = 'check not built yet in this round (work in progress; see DESIGN.md section 8 for the order of work)'
@@ -85,6 +103,7 @@ def main():
 
 NA = {}
 HOOK_COMMITS = ['7b4caa9', '4fb854c']
+FIX_COMMITS = ['e1f7f98', '497f892', 'c3da831']
 
 if __name__ == '__main__':
     main()
